@@ -23,6 +23,7 @@ import (
 	"github.com/pion/ice/v4"
 	"github.com/pion/interceptor"
 	"github.com/pion/logging"
+	"github.com/pion/transport/v4/stdnet"
 )
 
 // vPairGuard is the liveness guard of every wait of the pair engine.
@@ -79,6 +80,9 @@ func vPairNewAPI(tb testing.TB, o vPairAPIOpts) *API {
 	s.SetInterfaceFilter(func(n string) bool { return n == "lo" })
 	s.SetICEMulticastDNSMode(ice.MulticastDNSModeDisabled)
 	s.SetNetworkTypes([]NetworkType{NetworkTypeUDP4})
+	if n := vPairSharedNet(); n != nil {
+		s.SetNet(n)
+	}
 	if o.Setting != nil {
 		o.Setting(&s)
 	}
@@ -93,6 +97,29 @@ func vPairNewAPI(tb testing.TB, o vPairAPIOpts) *API {
 	}
 
 	return NewAPI(WithMediaEngine(m), WithSettingEngine(s), WithInterceptorRegistry(reg))
+}
+
+var (
+	vPairNetOnce sync.Once
+	vPairNet     *stdnet.Net
+)
+
+// vPairSharedNet is the real network, with the interface list read ONCE per process: left to itself every ICE
+// agent asks the kernel for it again, and under load that fails now and then ("netlinkrib: value too large
+// for defined data type"), which would end a case with "could not decide".
+func vPairSharedNet() *stdnet.Net {
+	vPairNetOnce.Do(func() {
+		for try := 0; try < 20; try++ {
+			if n, err := stdnet.NewNet(); err == nil {
+				vPairNet = n
+
+				return
+			}
+			time.Sleep(50 * time.Millisecond)
+		}
+	})
+
+	return vPairNet
 }
 
 // vPairNewPC creates a PeerConnection (shared harness certificate unless cfg names certificates).
